@@ -490,3 +490,27 @@ func deepBadStream(d int) []byte {
 	b.WriteByte(0xbf) // class #47
 	return b.Bytes()
 }
+
+// evolvedObjectBigNames is an evolved-class object (see foreignEvolvedObject) whose unknown field names
+// are long and unique (serial makes them distinct across messages).
+func evolvedObjectBigNames(ch *Choices, serial int, nameLen int) []byte {
+	var b bytes.Buffer
+	cls := []string{"K10", "K11", "K12", "K13"}[ch.Intn(4, "evo.cls")]
+	b.WriteByte('C')
+	b.WriteByte(byte(len(cls)))
+	b.WriteString(cls)
+	b.WriteByte(0x92)
+	b.WriteByte(1)
+	b.WriteString("a")
+	name := fmt.Sprintf("unknown-%d-", serial)
+	for len(name) < nameLen {
+		name += "xxxxxxxxxxxxxxxx"
+	}
+	name = name[:nameLen]
+	b.Write([]byte{'S', byte(nameLen >> 8), byte(nameLen)})
+	b.WriteString(name)
+	b.WriteByte(0x60)
+	b.WriteByte(0x91)
+	b.WriteByte(0x92)
+	return b.Bytes()
+}
